@@ -4,6 +4,7 @@ import (
 	"github.com/angelsolaorbaiceta/inkfem/math"
 	"github.com/angelsolaorbaiceta/inkfem/structure/load"
 	"github.com/angelsolaorbaiceta/inkgeom/g2d"
+	"github.com/angelsolaorbaiceta/inkgeom/nums"
 )
 
 func applyDistributedLoadsToNodes(nodes []*Node, loads []*load.DistributedLoad) {
@@ -21,6 +22,12 @@ func applyDistributedLoadsToNodes(nodes []*Node, loads []*load.DistributedLoad) 
 // TODO: distribute Mz loads
 // Applies a distribute load to the trailing and leading nodes in a finite element.
 func applyDistributedLoadToNodes(load *load.DistributedLoad, trailNode, leadNode *Node) {
+	// The load is only applied to the finite elements inside its span.
+	midT := nums.AverageT(trailNode.T, leadNode.T)
+	if midT.IsLessThan(load.StartT) || midT.IsGreaterThan(load.EndT) {
+		return
+	}
+
 	var (
 		startLoad, endLoad = forceTorsorInLocalCoords(load, trailNode, leadNode)
 		length             = trailNode.DistanceTo(leadNode)
